@@ -8,7 +8,7 @@ from vlib import core, dom
 
 ID = "C12"
 GEN = ["gas", "oil"]
-PROPS = ["C12_blackoil.v", "C12_spivey.v", "C12_viscosity.v"]
+PROPS = ["C12_blackoil.v", "C12_spivey.v", "C12_viscosity.v", "C12_continuity.v"]
 
 
 def run(ctx):
